@@ -321,3 +321,95 @@ BASE = {
     '_ZSt17__throw_bad_allocv': throw_stub('std::bad_alloc'),
     '_ZSt28__throw_bad_array_new_lengthv': throw_stub('std::bad_array_new_length'),
 }
+
+
+# ---- std::vector<T>::resize (the only std::vector member that is not executed from the IR) -------------
+
+CONTRACTS['std::vector<T>::resize'] = ("vector::resize(n) for n <= capacity(): sets end = begin + n, value-initialises [old size, n); "
+                                       "n > capacity() (reallocation) ends the path with outcome vector-realloc")
+_ELEM = {'h': 1, 'a': 1, 'c': 1, 'b': 1, 't': 2, 's': 2, 'j': 4, 'i': 4, 'm': 8, 'l': 8, 'y': 8, 'x': 8}
+
+
+def vector_resize(ex, argv, ins):
+    this, n = argv
+    name = ins.a[1][1] if ins.a[1][0] == 'global' else ''
+    mm = re.match(r'_ZNSt6vectorI(\w)', name)
+    if not mm or mm.group(1) not in _ELEM:
+        raise Unsupported("vector::resize for element type in %s" % name)
+    sz = _ELEM[mm.group(1)]
+    PT = ('ptr', ('int', 8))
+    begin = ex.load_val(Ptr(this.obj, off_add(this.off, 0)), PT)
+    end = ex.load_val(Ptr(this.obj, off_add(this.off, 8)), PT)
+    cap = ex.load_val(Ptr(this.obj, off_add(this.off, 16)), PT)
+    if begin.obj is None or begin.obj is not end.obj or begin.obj is not cap.obj or not (is_c(begin.off) and begin.off == 0):
+        raise Unsupported("vector::resize on an unmodelled vector")
+    store = begin.obj
+    if is_c(n):
+        newend = n * sz
+        fits = z3.ULE(z3.BitVecVal(newend, 64), bv(cap.off, 64)) if not is_c(cap.off) else newend <= cap.off
+    else:
+        newend = simp(n * z3.BitVecVal(sz, 64))
+        fits = z3.And(z3.ULE(n, z3.BitVecVal(1 << 32, 64)), z3.ULE(bv(newend, 64), bv(cap.off, 64)))
+    if not ex.decide(fits, 'vector-realloc'):
+        raise PathEnd('vector-realloc', **ex._site_info())
+    oe = end.off
+    if is_c(oe) and is_c(newend):
+        for i in range(oe, min(newend, store.size)):
+            store.cells[i] = 0
+        ex._drop_wide(store, 0, store.size)
+    else:
+        ex._materialize(store)
+        store.wide.clear()
+        for i in range(store.size):
+            I = z3.BitVecVal(i, 64)
+            store.cells[i] = simp(z3.If(z3.And(z3.UGE(I, bv(oe, 64)), z3.ULT(I, bv(newend, 64))), z3.BitVecVal(0, 8), bv(store.cells[i], 8)))
+    ex.store_val(Ptr(this.obj, off_add(this.off, 8)), PT, Ptr(store, newend))
+    return None
+
+
+# ---- std::string (libstdc++ cxx11 ABI): only what ReadString needs -----------------------------------
+
+CONTRACTS['std::string'] = ("basic_string(): empty; resize(n): contents become n zero bytes in a fresh array of the stated maximum size "
+                            "(n above it ends the path with outcome string-too-long); data(): pointer to that array; ~basic_string(): no-op")
+STRING_MAX = 8
+
+
+def string_ctor(ex, argv, ins):
+    argv[0].obj.meta['str'] = {'data': None, 'len': 0}
+    return None
+
+
+def string_resize(ex, argv, ins):
+    this, n = argv
+    info = this.obj.meta.setdefault('str', {'data': None, 'len': 0})
+    cap = ex.world.get('string_max', STRING_MAX)
+    if not ex.decide(z3.ULE(bv(n, 64), z3.BitVecVal(cap, 64)) if not is_c(n) else n <= cap, 'string-too-long'):
+        raise PathEnd('string-too-long', **ex._site_info())
+    d = Obj('string.data', cap + 1)
+    for i in range(cap + 1):
+        d.cells[i] = 0
+    info['data'], info['len'] = d, n
+
+    def guard(ex_, off, nb, is_store):
+        return z3.ULE(bv(off, 64) + bv(nb, 64), bv(info['len'], 64))
+    d.guard = guard
+    return None
+
+
+def string_data(ex, argv, ins):
+    info = argv[0].obj.meta.get('str')
+    if not info:
+        raise Unsupported("data() on an unmodelled string")
+    if info['data'] is None:
+        info['data'] = Obj('string.data', 1)
+        info['data'].cells[0] = 0
+    return Ptr(info['data'], 0)
+
+
+BASE.update({
+    '_ZNSt7__cxx1112basic_stringIcSt11char_traitsIcESaIcEEC1Ev': string_ctor,
+    '_ZNSt7__cxx1112basic_stringIcSt11char_traitsIcESaIcEE6resizeEm': string_resize,
+    '_ZNSt7__cxx1112basic_stringIcSt11char_traitsIcESaIcEE4dataEv': string_data,
+    '_ZNSt7__cxx1112basic_stringIcSt11char_traitsIcESaIcEED1Ev': noop,
+})
+PATTERNS = [(re.compile(r'^_ZNSt6vectorI\wSaI\wEE6resizeEm$'), vector_resize)]
